@@ -654,6 +654,8 @@ def np_concatenate(ex, seq, axis=0, **kw):
     offs = [0]
     for p in parts:
         offs.append(s_add(offs[-1], p.shape[0]))
+    for o in offs[1:-1]:
+        ex.add_index_shift(tonum(o) if not isinstance(conc(o), int) else conc(o))
 
     def elem(idx):
         i = idx[0]
